@@ -5,6 +5,7 @@ import (
 	"fmt"
 	"runtime/debug"
 	"sort"
+	"strings"
 
 	"wucheck/core"
 )
@@ -74,7 +75,11 @@ func RunRule(c *Ctx, r *Rule) (obs []core.Obligation, internal string) {
 	s := &core.Sink{Rule: r.Name, Props: r.Props}
 	defer func() {
 		if e := recover(); e != nil {
-			internal = fmt.Sprintf("rule %s panicked: %v\n%s", r.Name, e, debug.Stack())
+			st := strings.Split(string(debug.Stack()), "\n")
+			if len(st) > 14 {
+				st = st[6:14]
+			}
+			internal = fmt.Sprintf("rule %s panicked: %v [%s]", r.Name, e, strings.Join(st, " | "))
 			obs = s.Obs
 		}
 	}()
